@@ -134,7 +134,7 @@ def main(argv):
         rule="correspondence: generated range pairs and bounds (arith), generated texts of 0-6 lines with LF/CRLF/CR endings, tabs, non-ASCII and "
              "missing final newline with every offset 0..len+2 (lines), the same texts x 6 indent prefixes (indent), and real layout plans of "
              "generated programs and std windows with one selection of a random class each (select); search: hand-written witnesses, std "
-             "windows, mutated std files and generated programs x generated configurations x 13-16 selections per document covering the classes "
+             "windows, mutated std files and generated programs (at least half of the documents under the default configuration, the rest under generated ones; a violation is identified by the minimal set of non-default options that reproduces it or, under the default configuration, by class and construct) x 13-16 selections per document covering the classes "
              "whole, beyond-end, over-end, empty at eof/start/token start/token end/mid token/line start, one token, partial token, token span, "
              "lines, one line, random; distinct by (text, selection, configuration); non-trivial = text longer than 20 bytes",
         assumptions=["correspondence and search are sampled; the theorems carry the all-inputs claim for the kernel",
